@@ -632,6 +632,8 @@ def replay(rec):
         drv = GroupDriver()
         hist = tuple(tuple(e) for e in case["history"])
         s, outs = explore.run_history(drv, hist)
+        if hist:
+            drv.outcome_oracle(acc, s, hist, outs)  # the checks of the last event's own outcome
         drv.oracle(acc, s, hist, outs)
     elif site[0] in ("unit", "compound"):
         ureg = regs.default("Fraction", fresh=True)
